@@ -207,13 +207,16 @@ func (x *Exec) freeVarInput(st *State, fv *ssa.FreeVar) *Val {
 	t := fv.Type()
 	pt := t.Underlying().(*types.Pointer)
 	if _, isStruct := pt.Elem().Underlying().(*types.Struct); isStruct {
-		return x.freshVal(st, "free."+fv.Name(), t)
+		v := x.freshVal(st, "free."+fv.Name(), t)
+		x.ctx.assume(st, Neq(v.T, IntLit(0))) // a captured variable always exists
+		return v
 	}
 	name := "cell:free:" + fv.Name()
 	if a := x.prog.resolveFreeVar(fv); a != nil {
 		name = cellName(a)
 	}
 	ref := x.freshVal(st, "free."+fv.Name(), t)
+	x.ctx.assume(st, Neq(ref.T, IntLit(0)))
 	return &Val{Typ: t, Ptr: &Pointer{kind: pkCell, ref: ref.T, objT: pt.Elem(), cell: name}}
 }
 
